@@ -42,7 +42,8 @@ def call_c(mod, ko, case, inp, scalar_type):
 def oracle_value(oras, case, inp, scalar_type="float64"):
     ent = list(inp["entity_local_index"]) or [0]
     if case.kind == "expression":
-        return oras["expr"][case.extra["expr_index"]].tabulate(inp["w"], inp["c"], inp["coordinate_dofs"], ent[0])
+        prm = list(inp["quadrature_permutation"]) or [0]
+        return oras["expr"][case.extra["expr_index"]].tabulate(inp["w"], inp["c"], inp["coordinate_dofs"], ent[0], prm[0])
     fo = oras["forms"][case.extra["form_index"]]
     return fo.tabulate(case.extra["itg_index"], inp["w"], inp["c"], inp["coordinate_dofs"], ent)
 
@@ -83,7 +84,7 @@ def entity_choices(case, rng, all_entities):
     return [pairs[i] for i in idx]
 
 
-def compare_entry(entry, options=None, seed=0, reps=1, all_entities=False, kinds=None, complex_data=False):
+def compare_entry(entry, options=None, seed=0, reps=1, all_entities=False, kinds=None, complex_data=False, all_perms=False):
     out = {"name": entry.name, "cases": 0, "compared": 0, "unsupported": [], "bad": [], "maxrel": 0.0, "types": {}}
     try:
         options = dict(options or {})
@@ -101,9 +102,13 @@ def compare_entry(entry, options=None, seed=0, reps=1, all_entities=False, kinds
             except LookupError as ex:
                 out["bad"].append({"kernel": c.name, "what": f"descriptor lookup: {ex}"})
                 continue
-            for ent in entity_choices(c, rng, all_entities):
+            # permutation codes: expressions only (the form oracle integrates, which is invariant: C03)
+            perms = [0]
+            if all_perms and c.kind == "expression" and c.sizes["quadrature_permutation"] == 1:
+                perms = list(range(max(c.n_perms, 1)))
+            for ent, pc in [(e_, p_) for e_ in entity_choices(c, rng, all_entities) for p_ in perms]:
                 for _ in range(reps):
-                    inp = make_data(c, rng, st, entity=ent, perm=[0] * c.sizes["quadrature_permutation"], complex_data=complex_data)
+                    inp = make_data(c, rng, st, entity=ent, perm=[pc] * c.sizes["quadrature_permutation"], complex_data=complex_data)
                     try:
                         B = oracle_value(oras, c, inp, st)
                     except oracle.OracleUnsupported as ex:
@@ -117,7 +122,7 @@ def compare_entry(entry, options=None, seed=0, reps=1, all_entities=False, kinds
                     if not (err <= _TOL[st]) or not np.all(np.isfinite(A)):
                         k = int(np.argmax(np.abs(A - B))) if B.size else 0
                         out["bad"].append({
-                            "kernel": c.name, "integral_type": c.integral_type, "relerr": err, "entity": ent,
+                            "kernel": c.name, "integral_type": c.integral_type, "relerr": err, "entity": ent, "permutation": pc,
                             "entry_index": k, "c_value": str(A[k]), "oracle_value": str(B[k]),
                             "w": [float(np.real(v)) for v in inp["w"][:24]], "c": [float(np.real(v)) for v in inp["c"][:12]],
                             "coordinate_dofs": [float(v) for v in inp["coordinate_dofs"]],
